@@ -122,6 +122,7 @@ def body(m, cfg):
         _history_op(m, q, i)
     op = cfg["op"]
     dta = cfg["dta"]
+    m.dtype_tol(dta, cfg.get("dtb"))
     sa = tuple(cfg["sa"])
     tag = f"{op}:{C.DT_SHORT[dta]}" + (":after-" + "-".join(str(q["op"]) + str(q.get("k", "")) for q in cfg["pre"]) if cfg.get("pre") else "")
     a = Array(m.array("a", sa, dta), unit=cfg["ua"])
